@@ -223,7 +223,7 @@ func c01r2(c *an.Ctx) {
 	spl := c.Fn("drpcstream", "(*Stream).sendPacketLocked")
 	wf := a.obj("drpcwire", "(*Writer).WriteFrame")
 	fl := a.obj("drpcwire", "(*Writer).Flush")
-	flow := &an.Flow{Fn: spl, Init: []string{"0"}, Step: func(st string, in ssa.Instruction) []string {
+	flow := &an.Flow{Fn: spl, Inline: an.InlineSamePackage(spl), Init: []string{"0"}, Step: func(st string, in ssa.Instruction) []string {
 		ci, ok := in.(ssa.CallInstruction)
 		if !ok {
 			return nil
@@ -351,7 +351,7 @@ func c01r3(c *an.Ctx) {
 				c.Check(!after, key, c.At(s.Instr), "used before Done", "the lent slice is used after packetBuffer.Done handed it back to the reader")
 			}
 			// 2. Done exactly once on the success path, none on the error path
-			flow := &an.Flow{Fn: fn, Init: []string{"none"},
+			flow := &an.Flow{Fn: fn, Inline: an.InlineSamePackage(fn), Init: []string{"none"},
 				Step: func(st string, in ssa.Instruction) []string {
 					ci, ok := in.(ssa.CallInstruction)
 					if !ok {
@@ -568,7 +568,7 @@ func c01r4(c *an.Ctx) {
 	// (e) every state change is followed by a Broadcast before the mutex is released or waited on
 	for _, name := range []string{"(*packetBuffer).Put", "(*packetBuffer).Get", "(*packetBuffer).Done", "(*packetBuffer).Close"} {
 		fn := c.Fn("drpcstream", name)
-		flow := &an.Flow{Fn: fn, Init: []string{"clean"}, Step: func(st string, in ssa.Instruction) []string {
+		flow := &an.Flow{Fn: fn, Inline: an.InlineSamePackage(fn), Init: []string{"clean"}, Step: func(st string, in ssa.Instruction) []string {
 			switch x := in.(type) {
 			case *ssa.Store:
 				fv := an.PathOf(x.Addr).Last()
@@ -753,7 +753,7 @@ func c01r5(c *an.Ctx) {
 		return
 	}
 	// typestate: kind consistency established since the last ParseFrame
-	flow := &an.Flow{Fn: fn, Init: []string{"?"},
+	flow := &an.Flow{Fn: fn, Inline: an.InlineSamePackage(fn), Init: []string{"?"},
 		Step: func(st string, in ssa.Instruction) []string {
 			switch x := in.(type) {
 			case *ssa.Call:
